@@ -221,6 +221,23 @@ func buildScript(seed uint64, p *ScriptPlan) (*built, error) {
 					}
 				}
 			}
+			if !p.GreaseNamesBadKey {
+				// (a random id that happens to be the id of a held key of another
+				// KEM, or of one whose private key does not parse, is the same
+				// configuration matter)
+				for tries := 0; tries < 256; tries++ {
+					clash := false
+					for _, k := range p.Keys {
+						if (k.OtherKEM || k.BadPriv) && k.ID == e.ConfigID {
+							clash = true
+						}
+					}
+					if !clash {
+						break
+					}
+					e.ConfigID++
+				}
+			}
 			pos := r.IntN(len(h.Exts) + 1)
 			h.Exts = slices.Insert(h.Exts, pos, echbox.Ext{Type: echbox.ExtECH, Data: e.Bytes()})
 		}
